@@ -54,7 +54,9 @@ RULE = ("run i < table size is the i-th pipeline of the complete table {checkpoi
         "(221 184 cases, amplification sampled); runs beyond the table sample (a) pipelines of 1..5 stages (one or two "
         "faults placed inside an otherwise passing pipeline, or uniform behaviours; checkpoints that return None or that "
         "test 'signal is not None'; processors / recovery handlers returning None, 0, '', []; stage names '' and "
-        "duplicates; max_amplification 100/3/1; recording or raising on_stage_complete / on_cascade_complete observers), "
+        "duplicates; max_amplification 100/3/1; recording, raising or record-editing on_stage_complete / "
+        "on_cascade_complete observers; one checkpoint callable shared by several stages (stateful or content-based) "
+        "with list signals that processors extend in place or hand on untouched), "
         "(b) the MAPKCascade preset (stock, first tier removed, extra fake stage appended) on inputs that pass, fail or "
         "crash its gates, (c) threads: 2 tasks x 1-2 run() calls on one shared Cascade of 1-3 stages whose checkpoints "
         "give a per-call verdict, under seeded schedules (serial, uniform, sticky, pct) with a decision at every source "
@@ -76,6 +78,9 @@ ASSUMPTIONS = [
     "input/output signals of the returned stage results against a re-statement of the preset's three functions",
     "an exception raised by an on_stage_complete / on_cascade_complete observer is the caller's own and is never itself "
     "a violation; a report that is nevertheless returned is judged like any other",
+    "callbacks and signals are judged on snapshots taken when a fake was called / returned (signals may be mutated in "
+    "place, an observer may edit the record it is handed); composition is judged against what the stage functions "
+    "produced and what was submitted, never against the report's records",
     "threads family: every clause is per run() call (run() keeps all per-run state in locals; the statistics counters "
     "on the object are not judged); pre-emption granularity is the source line",
 ]
@@ -84,7 +89,8 @@ EXPECT_PROBES = ("gate_raise_nonhalt", "gate_reject_nonhalt", "gate_falsy", "hal
                  "mapk_gate_blocked", "mapk_gate_raised", "five_stages", "empty_stage_name_blocked_under_halt",
                  "duplicate_stage_names", "none_output_handed_on", "falsy_output_handed_on", "success_with_none_final_output",
                  "notnone_gate_blocked", "observer_raised", "threads_run", "threads_opposite_verdicts_same_stage",
-                 "threads_preempted_inside_run")
+                 "threads_preempted_inside_run", "shared_gate_rejected", "stage_handed_on_the_same_object",
+                 "observer_edited_its_record", "attenuation_after_clamp")
 
 MAPK_INPUTS = {
     "str": "hello", "none": None, "int": 7,
@@ -176,6 +182,31 @@ def _decorate(rng, ops):
             st["rec"] = weighted(rng, [(3, "none"), (1, "zero"), (1, "estr"), (1, "elist")])
 
 
+def _shared_objects(rng, cfg, ops):
+    """One checkpoint callable shared by several stages; list signals that processors mutate in place / hand on as is."""
+    n = len(ops)
+    cfg["signal"] = "list"
+    cfg["shared_gate"] = rng.choice([{"kind": "tokens", "k": 1}, {"kind": "tokens", "k": 2}, {"kind": "maxlen", "n": 1},
+                                     {"kind": "maxlen", "n": 2}, {"kind": "maxlen", "n": 3}])
+    if n == 1:
+        ops[0]["gate"] = "shared"
+        return
+    a = rng.randrange(n - 1)
+    b = rng.randrange(a + 1, n)
+    for j in range(a, b + 1):
+        st = ops[j]
+        if j in (a, b) or rng.random() < 0.25:
+            st["gate"] = "shared"
+        elif rng.random() < 0.8:
+            st["gate"] = "absent"
+        if j < b and rng.random() < 0.85:          # hands on the very object it was given
+            st["proc"] = "ok"
+            st["out"] = rng.choice(["mutate", "mutate", "same"])
+    for st in ops:
+        if st["gate"] != "shared" and rng.random() < 0.15:
+            st["gate"] = "shared"
+
+
 def _threads_plan(rng, halt, max_amp):
     n = rng.choice([1, 1, 2, 2, 3])
     ops = []
@@ -243,9 +274,13 @@ def gen(rng, tier, i):
             ops.append(st)
     _decorate(rng, ops)
     cfg = {"halt": halt, "max_amp": max_amp, "family": "sampled"}
+    if rng.random() < 0.2:
+        _shared_objects(rng, cfg, ops)
     r = rng.random()
-    if r < 0.15:
+    if r < 0.10:
         cfg["observer"] = "record"
+    elif r < 0.18:
+        cfg["observer"] = rng.choice(["edit_output", "edit_output", "edit_none"])
     elif r < 0.22:
         cfg["observer"], cfg["observer_at"] = "raise_stage", rng.randrange(n)
     elif r < 0.25:
@@ -288,6 +323,28 @@ def _val(kind, token):
     return {"token": token, "none": None, "zero": 0, "estr": "", "elist": []}[kind or "token"]
 
 
+def _snap(v):
+    """What a value looked like at this moment (signals may be mutated in place later)."""
+    if isinstance(v, list):
+        return list(v)
+    if isinstance(v, dict):
+        return dict(v)
+    return v
+
+
+def _produce(kind, idx, signal):
+    """The stage function of fake stage idx."""
+    kind = kind or "token"
+    if kind == "same":
+        return signal                                   # the very object it was handed
+    if kind == "mutate" and isinstance(signal, list):
+        signal.append(f"p{idx}")                        # edited in place, same object handed on
+        return signal
+    if kind in ("token", "mutate"):
+        return list(signal) + [f"p{idx}"] if isinstance(signal, list) else f"p{idx}({signal})"
+    return _val(kind, None)
+
+
 class _World:
     """One cascade under test: stage descriptors, the call log, who is calling."""
 
@@ -302,6 +359,36 @@ class _World:
         self.percall = {}        # tag -> per-stage gate outcomes
         self.observed = []
         self.observer_raised = False
+        self.seen_max = {}       # tag -> highest stage index that logged anything in that run() call
+        self.shared_calls = {}   # tag -> calls of the shared checkpoint in that run() call
+        self.shared_idxs = []
+        w = self
+
+        def shared_gate(signal):
+            """ONE callable object used as the checkpoint of several stages (it cannot know for which)."""
+            tag = w.tag()
+            seen = w.seen_max.get(tag, -1)
+            idx = next((i for i in w.shared_idxs if i > seen), -1)
+            sg = w.cfg.get("shared_gate") or {"kind": "tokens", "k": 1}
+            nth = w.shared_calls.get(tag, 0)
+            w.shared_calls[tag] = nth + 1
+            if sg["kind"] == "tokens":
+                beh = "pass" if nth < sg["k"] else "reject"
+            else:
+                beh = "pass" if not isinstance(signal, list) or len(signal) <= sg["n"] else "reject"
+            w.note(tag, idx, "gate", _snap(signal), beh, None)
+            w.k.ev("gate", [idx, plain(signal), beh, "shared"])
+            if beh == "reject":
+                w.k.fault("collab_adversarial_value")
+                w.k.probe("shared_gate_rejected")
+                return False
+            return True
+        self.shared_gate = shared_gate
+
+    def note(self, tag, idx, role, signal, outcome, returned):
+        self.log.append((tag, idx, role, signal, outcome, returned))
+        if idx > self.seen_max.get(tag, -1):
+            self.seen_max[tag] = idx
 
 
 class _Fakes:
@@ -321,7 +408,7 @@ class _Fakes:
             beh = "pass" if signal is not None else "reject"
             if beh == "reject":
                 k.probe("notnone_gate_blocked")
-        w.log.append((tag, self.idx, "gate", signal, beh, None))
+        w.note(tag, self.idx, "gate", _snap(signal), beh, None)
         k.ev("gate", [self.idx, plain(signal), beh])
         if beh == "raise":
             k.fault("collab_raise")
@@ -338,19 +425,23 @@ class _Fakes:
     def proc(self, signal):
         w, k = self.w, self.w.k
         beh = self.st["proc"]
-        ret = None if beh == "raise" else _val(self.st.get("out"), f"p{self.idx}({signal})")
-        w.log.append((w.tag(), self.idx, "proc", signal, beh, ret))
+        handed = _snap(signal)
         k.ev("proc", [self.idx, plain(signal), beh])
         if beh == "raise":
+            w.note(w.tag(), self.idx, "proc", handed, beh, None)
             k.fault("collab_raise")
             raise ProcBoom(f"proc{self.idx}")
+        ret = _produce(self.st.get("out"), self.idx, signal)
+        if ret is signal and isinstance(signal, (list, dict)):
+            k.probe("stage_handed_on_the_same_object")
+        w.note(w.tag(), self.idx, "proc", handed, beh, _snap(ret))
         return ret
 
     def handler(self, exc):
         w, k = self.w, self.w.k
         beh = self.st["handler"]
         ret = None if beh == "raise" else _val(self.st.get("rec"), f"r{self.idx}")
-        w.log.append((w.tag(), self.idx, "handler", type(exc).__name__, beh, ret))
+        w.note(w.tag(), self.idx, "handler", type(exc).__name__, beh, _snap(ret))
         k.ev("handler", [self.idx, type(exc).__name__, beh])
         if beh == "raise":
             k.fault("collab_raise")
@@ -361,7 +452,7 @@ class _Fakes:
 def _fake_stage(w, idx, st, pos):
     f = _Fakes(w, idx, st, pos)
     return CascadeStage(name=st.get("name", f"s{idx}"), processor=f.proc, amplification=st["amp"],
-                        checkpoint=None if st["gate"] == "absent" else f.gate,
+                        checkpoint=None if st["gate"] == "absent" else w.shared_gate if st["gate"] == "shared" else f.gate,
                         on_error=None if st["handler"] == "absent" else f.handler,
                         required=st["required"])
 
@@ -408,10 +499,15 @@ def _build(k, plan):
     cfg = w.cfg
     kw = {}
     obs = cfg.get("observer")
-    if obs in ("record", "raise_stage"):
+    if obs in ("record", "raise_stage", "edit_output", "edit_none"):
         def on_stage(sr, _n=[0]):
             w.observed.append(("stage", sr.stage_name))
             _n[0] += 1
+            if obs in ("edit_output", "edit_none"):
+                # the record handed to an observer is the observer's to keep or edit (scrub, truncate, release)
+                sr.output_signal = None if obs == "edit_none" else "scrubbed"
+                sr.input_signal = "scrubbed"
+                k.probe("observer_edited_its_record")
             if obs == "raise_stage" and _n[0] - 1 == cfg.get("observer_at", 0):
                 w.observer_raised = True
                 k.fault("collab_raise")
@@ -444,6 +540,8 @@ def _build(k, plan):
     base = len(w.desc)
     for j, st in enumerate(plan["ops"]):
         idx = base + j
+        if st["gate"] == "shared":
+            w.shared_idxs.append(idx)
         stage = _fake_stage(w, idx, st, j)
         c.add_stage(stage)
         w.desc.append({"name": stage.name, "fake": idx, "st": st, "gate": None, "fn": None,
@@ -502,7 +600,7 @@ def _judge(w, tag, signal0, out):
         for e in procs:
             if st["gate"] == "absent":
                 continue
-            pos = log.index(e)
+            pos = next(q for q, x in enumerate(log) if x is e)
             prior = [g for g in log[:pos] if g[0] == idx and g[1] == "gate"]
             if not prior:
                 k.violation("fail_closed", "ran_without_gate_verdict", f"{hs}:gate={st['gate']}",
@@ -688,6 +786,8 @@ def _judge(w, tag, signal0, out):
             step, prod = 1.0, 1.0
             clamped = False
             for a in combo:
+                if clamped and a < 1.0:
+                    k.probe("attenuation_after_clamp")
                 step *= a
                 prod *= a
                 if step > mx:
@@ -735,7 +835,8 @@ def run(plan, k):
         signal0 = MAPK_INPUTS[cfg["input"]]
         signal0 = dict(signal0) if isinstance(signal0, dict) else signal0
     else:
-        signal0 = "s0"
+        signal0 = ["s0"] if cfg.get("signal") == "list" else "s0"
+    submitted = _snap(signal0)                      # judged against what was submitted, not the object afterwards
     with SeqTracer(k, SCOPE, 20_000) as tr:
         out = call(c.run, signal0, tracer=tr)
     if out.kind == "step_budget":
@@ -744,7 +845,7 @@ def run(plan, k):
     if out.kind not in ("ok", "raised"):
         k.violation("returns", out.kind, w.hs)
         return
-    _judge(w, ("main", 0), signal0, out)
+    _judge(w, ("main", 0), submitted, out)
 
 
 def _run_threads(plan, k):
